@@ -19,6 +19,9 @@ VERIF_DIR = os.path.dirname(os.path.dirname(os.path.abspath(__file__)))
 REPO_ROOT = os.environ.get("OQ_VERIF_ROOT", "/repo")
 LIB_SRC = os.path.join(REPO_ROOT, "src")
 N_CORES = int(os.environ.get("VERIF_CORES", "16"))
+# wall-clock budget of one check run (seconds; quick, thorough); override with VERIF_BUDGET_S. When it is used up the
+# remaining generated cases are skipped and counted as such (inconclusive - never a violation, never a non-zero exit).
+BUDGET_S = (900, 1500)
 
 
 # ---------------------------------------------------------------- exceptions
@@ -274,6 +277,7 @@ class Stats:
         self.violation = None  # (spec, message)
         self.harness_error = None
         self.wall = 0.0
+        self.skipped_budget = 0  # generated cases not evaluated because the wall-clock budget of the run was used up
 
     def as_dict(self):
         return self.__dict__
@@ -355,7 +359,7 @@ def run_case(sc, spec, stats):
     return info
 
 
-def _run_given(sc, tier, seed_value, n_examples, stats, shrink_budget):
+def _run_given(sc, tier, seed_value, n_examples, stats, shrink_budget, deadline=None):
     import hypothesis
     from hypothesis import HealthCheck, Phase, given, settings
 
@@ -366,6 +370,9 @@ def _run_given(sc, tier, seed_value, n_examples, stats, shrink_budget):
             time.time() - state["first_fail"] > shrink_budget
         ):
             return  # shrink budget used up: let the shrinker run dry quickly
+        if state["first_fail"] is None and deadline is not None and time.time() > deadline:
+            stats.skipped_budget += 1  # budget of the whole run used up: inconclusive, never a violation
+            return
         try:
             run_case(sc, spec, stats)
         except Violation as v:
@@ -400,9 +407,12 @@ def _run_given(sc, tier, seed_value, n_examples, stats, shrink_budget):
         stats.violation = state["best"]
 
 
-def _run_enumerated(sc, tier, shard, n_shards, stats):
+def _run_enumerated(sc, tier, shard, n_shards, stats, deadline=None):
     for i, spec in enumerate(sc.enumerate(tier)):
         if i % n_shards != shard:
+            continue
+        if deadline is not None and time.time() > deadline:
+            stats.skipped_budget += 1
             continue
         try:
             run_case(sc, spec, stats)
@@ -411,7 +421,7 @@ def _run_enumerated(sc, tier, shard, n_shards, stats):
             return
 
 
-def _run_machine(sc, tier, seed_value, n_examples, stats, shrink_budget):
+def _run_machine(sc, tier, seed_value, n_examples, stats, shrink_budget, deadline=None):
     """Hypothesis RuleBasedStateMachine sub-check. sc.machine(stats_hook) returns a machine
     class whose rules append [rule, args...] to self.trace and whose failures raise Violation."""
     import hypothesis
@@ -427,6 +437,10 @@ def _run_machine(sc, tier, seed_value, n_examples, stats, shrink_budget):
                 state["first_fail"] = time.time()
             state["best"] = (trace, str(error))
             return
+        if not trace:
+            if deadline is not None and time.time() > deadline:
+                stats.skipped_budget += 1
+            return
         stats.evaluations += 1
         for lab in info.get("classes", ()):
             stats.classes[lab] += 1
@@ -438,9 +452,9 @@ def _run_machine(sc, tier, seed_value, n_examples, stats, shrink_budget):
                     stats.samples.append(trace)
 
     def expired():
-        return state["first_fail"] is not None and (
-            time.time() - state["first_fail"] > shrink_budget
-        )
+        if state["first_fail"] is None:
+            return deadline is not None and time.time() > deadline
+        return time.time() - state["first_fail"] > shrink_budget
 
     machine_cls = sc.machine(on_end, expired)
     st_settings = settings(
@@ -468,7 +482,7 @@ def _run_machine(sc, tier, seed_value, n_examples, stats, shrink_budget):
         stats.violation = state["best"]
 
 
-def _worker(prop_id, sc, tier, seed, shard, n_shards, conn):
+def _worker(prop_id, sc, tier, seed, shard, n_shards, conn, deadline=None):
     import warnings
 
     warnings.simplefilter("ignore")
@@ -477,16 +491,16 @@ def _worker(prop_id, sc, tier, seed, shard, n_shards, conn):
     ti = tier_index(tier)
     try:
         if sc.enumerate is not None:
-            _run_enumerated(sc, tier, shard, n_shards, stats)
+            _run_enumerated(sc, tier, shard, n_shards, stats, deadline)
         elif sc.machine is not None:
             _run_machine(
                 sc, tier, derive_seed(seed, prop_id, sc.name, shard),
-                sc.examples[ti], stats, 60 if ti == 0 else 180,
+                sc.examples[ti], stats, 60 if ti == 0 else 180, deadline,
             )
         else:
             _run_given(
                 sc, tier, derive_seed(seed, prop_id, sc.name, shard),
-                sc.examples[ti], stats, 60 if ti == 0 else 180,
+                sc.examples[ti], stats, 60 if ti == 0 else 180, deadline,
             )
     except HarnessError as e:
         stats.harness_error = str(e)
@@ -538,10 +552,15 @@ def run_property(prop, tier, seed, only=None):
         n_shards = sc.shards[ti]
         for shard in range(n_shards):
             tasks.append((sc, shard, n_shards))
-    # longest first
-    tasks.sort(key=lambda t: -t[0].examples[ti])
+    # first shard of every sub-check first (so that a run that uses up its budget has explored every sub-check), then longest first
+    tasks.sort(key=lambda t: (t[1] != 0, -t[0].examples[ti]))
+    try:
+        budget = float(os.environ.get("VERIF_BUDGET_S") or BUDGET_S[ti])
+    except ValueError:
+        budget = BUDGET_S[ti]
+    deadline = t0 + budget
     pending = list(tasks)
-    running = []  # (proc, conn, sc, shard, deadline)
+    running = []  # (proc, conn, sc, shard, kill_at)
     results = collections.defaultdict(list)
     timeouts = collections.Counter()
     while pending or running:
@@ -549,13 +568,13 @@ def run_property(prop, tier, seed, only=None):
             sc, shard, n_shards = pending.pop(0)
             parent, child = ctx.Pipe(duplex=False)
             p = ctx.Process(
-                target=_worker, args=(pid, sc, tier, seed, shard, n_shards, child)
+                target=_worker, args=(pid, sc, tier, seed, shard, n_shards, child, deadline)
             )
             p.start()
             child.close()
-            running.append((p, parent, sc, shard, time.time() + sc.timeout[ti]))
+            running.append((p, parent, sc, shard, max(time.time(), min(time.time() + sc.timeout[ti], deadline)) + 240))
         still = []
-        for p, conn, sc, shard, deadline in running:
+        for p, conn, sc, shard, kill_at in running:
             if conn.poll(0.02):
                 try:
                     results[sc.name].append(conn.recv())
@@ -575,13 +594,13 @@ def run_property(prop, tier, seed, only=None):
                     )
                 p.join()
                 conn.close()
-            elif time.time() > deadline:
+            elif time.time() > kill_at:
                 p.kill()
                 p.join()
                 conn.close()
                 timeouts[sc.name] += 1
             else:
-                still.append((p, conn, sc, shard, deadline))
+                still.append((p, conn, sc, shard, kill_at))
         running = still
     return _report(prop, tier, seed, results, timeouts, time.time() - t0, only)
 
@@ -647,12 +666,15 @@ def _report(prop, tier, seed, results, timeouts, wall, only):
             "exhaustive": bool(sc.exhaustive),
             "shards": len(rs),
             "shard_timeouts": timeouts.get(sc.name, 0),
+            "skipped_after_budget": sum(r.get("skipped_budget", 0) for r in rs),
             "wall_s": round(max([r["wall"] for r in rs] or [0.0]), 2),
         }
         total_eval += ev
         nt_all |= {(sc.name, h) for h in nts}
         for k, v in cl.items():
             classes[sc.name + ":" + k] += v
+        if sum(r.get("skipped_budget", 0) for r in rs):
+            warnings_.append(f"{sc.name}: wall-clock budget used up, {sum(r.get('skipped_budget', 0) for r in rs)} generated cases not evaluated")
         if conclusive == 0 and not any(r["violation"] for r in rs):
             vacuous.append(sc.name)
         for lab in getattr(sc, "expected_classes", ()):
